@@ -33,6 +33,8 @@ structure AbsHist where
   video : List AbsVideo := []     -- accepted video frames, oldest first
   audioPts : List F64 := []       -- accepted audio frames, oldest first
   finishAttempted : Bool := false
+  width : Nat := 0
+  height : Nat := 0
 
 def nalTypesH264 (d : Bytes) : List Nat := ((splitAnnexB d).filter (· ≠ [])).map fun u => (u.headD 0).toNat % 32
 def nalTypesH265 (d : Bytes) : List Nat := ((splitAnnexB d).filter (· ≠ [])).map fun u => (u.headD 0).toNat / 2 % 64
@@ -59,14 +61,25 @@ def validAudioFraming (a : ACodecS) (d : Bytes) : Bool :=
 
 def u32MaxS : Nat := 2^32 - 1
 
+/-- the timestamp converts to media-clock ticks without saturating 64 bits: exact test on the
+    double's rational value, 90000·x rounds to something below 2^64 -/
+def tickInRange (x : F64) : Bool :=
+  match x with
+  | .fin false m e => let (a, b) := F64.frac m e; 2 * a * 90000 + b < 2 * 2^64 * b
+  | .fin true _ _ => true
+  | _ => false
+
 /-- violated preconditions of a video write. `viaWriteVideo`: the `write_video` entry point, whose
     documented contract additionally demands PTS strictly above the previous frame's PTS. -/
 def videoViolations (h : AbsHist) (viaWriteVideo : Bool) (pts dts : F64) (data : Bytes) (key : Bool) : List Violation :=
   let prev := h.video.getLast?
   (if h.finishAttempted then [.finished] else []) ++
   (if data = [] then [.empty] else []) ++
-  (if ¬ pts.isFinite then [.nonFinitePts] else if pts.isNeg then [.negativePts] else []) ++
-  (if ¬ dts.isFinite then [.nonFiniteDts] else if dts.isNeg then [.negativeDts] else []) ++
+  (if ¬ pts.isFinite then [.nonFinitePts] else if pts.isNeg then [.negativePts]
+   else if ¬ tickInRange pts then [.nonFinitePts] else []) ++
+  (if ¬ dts.isFinite then [.nonFiniteDts] else if dts.isNeg then [.negativeDts]
+   else if ¬ tickInRange dts then [.nonFiniteDts] else []) ++
+  (if (pts.ticks : Int) - (dts.ticks : Int) > 2^31 - 1 ∨ (pts.ticks : Int) - (dts.ticks : Int) < -(2^31) then [.gap] else []) ++
   (match prev with
    | some p =>
      (if (viaWriteVideo && F64.le pts p.pts) || dts.ticks ≤ p.dts.ticks then [.videoOrder] else []) ++
@@ -80,7 +93,8 @@ def audioViolations (h : AbsHist) (pts : F64) (data : Bytes) : List Violation :=
   (match h.audio with
    | none => [.audioNotConfigured]
    | some a => if data ≠ [] ∧ ¬ validAudioFraming a data then [.badAudioFraming] else []) ++
-  (if ¬ pts.isFinite then [.nonFinitePts] else if pts.isNeg then [.negativePts] else []) ++
+  (if ¬ pts.isFinite then [.nonFinitePts] else if pts.isNeg then [.negativePts]
+   else if ¬ tickInRange pts then [.nonFinitePts] else []) ++
   (if data = [] then [.empty] else []) ++
   (match h.audioPts.getLast? with
    | some p => (if F64.lt pts p then [.audioOrder] else []) ++
@@ -90,7 +104,20 @@ def audioViolations (h : AbsHist) (pts : F64) (data : Bytes) : List Violation :=
    | none => [.audioBeforeVideo]
    | some v => if F64.lt pts v.pts then [.audioBeforeVideo] else [])
 
-def finishViolations (h : AbsHist) : List Violation := if h.finishAttempted then [.finished] else []
+/-- declared duration of a track whose samples have decode times `ts` (the last sample gets the
+    duration of the preceding interval; a lone sample one tick) -/
+def trackDuration (ts : List Nat) : Nat :=
+  match ts.reverse with
+  | [] => 0
+  | [_] => 1
+  | last :: prev :: _ => (last - ts.headD 0) + (last - prev)
+
+/-- finish: not finished yet, and everything fits the container's fixed-width fields (32-bit
+    track durations, 16-bit dimensions) -/
+def finishViolations (h : AbsHist) : List Violation :=
+  (if h.finishAttempted then [.finished] else []) ++
+  (if trackDuration (h.video.map (·.dts.ticks)) > u32MaxS ∨ trackDuration (h.audioPts.map (·.ticks)) > u32MaxS ∨
+      h.width > 65535 ∨ h.height > 65535 then [.gap] else [])
 
 /-- which precondition an error variant names -/
 def explains (variant : String) : List Violation :=
